@@ -24,6 +24,7 @@ container `c`, every `owner`, every initial memory `g`:
       a permutation of ALL issued operations; `Dist.Complete` holds for the execution extracted from `ls`; the induced
       memory is `Dist.execGlobal` of it;
 * `exactly_once_fold_at_barrier` — `Dist.exactly_once_fold` without hypothesis;
+* `barrier_later_exits` — the guarantee at every later return of the same barrier;
 * `keyed_after_barrier`, `C11_map_after_barrier`, `C12_set_after_barrier` — per-key corollaries (`owner_holds_fold`);
 * (4) non-vacuity by `decide`.
 -/
@@ -262,6 +263,31 @@ theorem exactly_once_fold_at_barrier [BEq Op] [LawfulBEq Op] (ls : List Label) (
   refine ⟨fun q => ?_, h2, h3⟩
   rw [← h1 q]
   exact mem_eq_execGlobal c owner opOf n nh g ls s hrun ha q
+
+/-- **every later return of the same barrier** (and anything after it): once the first rank may leave barrier `e`
+(state `s1`, history `ls1`), whatever happens afterwards (`ls2`), every operation issued before that first return stays
+executed on its owner, the execution record only grows, and the container state of every rank is the state it had at
+the first return with the operations executed since applied on top, in execution order -/
+theorem barrier_later_exits (ls1 ls2 : List Label) (s1 s2 : St)
+    (h1 : Comm.run n nh Comm.init ls1 = some s1) (h2 : Comm.run n nh s1 ls2 = some s2)
+    (ha : Addressed owner opOf ls1)
+    (r : Nat) (hr : r < n) (hx : BarrierME.exitEnabled s1.b r = true)
+    (hne : ∀ q, q < n → s1.b.epoch q ≤ s1.b.epoch r) :
+    (∀ m ∈ ls1.flatMap Comm.issued, m.1 ∈ uidsExecutedOn (owner (opOf m.1)) s2.d.executed) ∧
+    ∃ t, s2.d.executed = s1.d.executed ++ t ∧
+      ∀ q, memOf c opOf n nh g (ls1 ++ ls2) q =
+        List.foldl (fun st op => (c.apply st op).1) (memOf c opOf n nh g ls1 q) ((uidsExecutedOn q t).map opOf) := by
+  have hl := (Comm.C02C01_later_exits n nh ls1 ls2 s1 s2 h1 h2 r hr hx hne).1
+  obtain ⟨t, ht⟩ := Comm.dRun_executed _ (Comm.run_projD ls2 h2)
+  refine ⟨?_, t, ht, ?_⟩
+  · intro m hm
+    rw [mem_uidsExecutedOn, ← (ha m hm).1]
+    exact hl m hm
+  · intro q
+    rw [state_is_fold c opOf n nh g (ls1 ++ ls2) s2 (Comm.run_append ls1 ls2 h1 h2) q,
+      state_is_fold c opOf n nh g ls1 s1 h1 q]
+    unfold opsExecutedOn uidsExecutedOn
+    rw [ht, List.filter_append, List.map_append, List.map_append, List.foldl_append]
 
 end Main
 
